@@ -128,21 +128,26 @@ def prolongMat (total : Nat) (idx : List Nat) : Mat := ⟨total, idx.length, col
 /-- restriction = transpose of the prolongation -/
 def restrictMat (total : Nat) (idx : List Nat) : Mat := (prolongMat total idx).transpose
 
-def cellProlongation (gs : List G) (dim : Nat) (sel : List Nat) : Except Err Mat := do
-  let idx ← subIdx (cellProjs gs dim) sel
-  pure (prolongMat (sumMap G.cells gs * dim) idx)
+/-- size of a grid in cell (`useFaces = false`) or face (`true`) quantities -/
+def sizeOf (useFaces : Bool) (g : G) : Nat := if useFaces then g.faces else g.cells
 
-def cellRestriction (gs : List G) (dim : Nat) (sel : List Nat) : Except Err Mat := do
-  let idx ← subIdx (cellProjs gs dim) sel
-  pure (restrictMat (sumMap G.cells gs * dim) idx)
+def projsOf (useFaces : Bool) (gs : List G) (dim : Nat) : Option (List (List Nat)) :=
+  if useFaces then faceProjs gs dim else cellProjs gs dim
 
-def faceProlongation (gs : List G) (dim : Nat) (sel : List Nat) : Except Err Mat := do
-  let idx ← subIdx (faceProjs gs dim) sel
-  pure (prolongMat (sumMap G.faces gs * dim) idx)
+/-- `cell_prolongation` / `face_prolongation` (the two methods are copies of each other) -/
+def prolongation (useFaces : Bool) (gs : List G) (dim : Nat) (sel : List Nat) : Except Err Mat := do
+  let idx ← subIdx (projsOf useFaces gs dim) sel
+  pure (prolongMat (sumMap (sizeOf useFaces) gs * dim) idx)
 
-def faceRestriction (gs : List G) (dim : Nat) (sel : List Nat) : Except Err Mat := do
-  let idx ← subIdx (faceProjs gs dim) sel
-  pure (restrictMat (sumMap G.faces gs * dim) idx)
+/-- `cell_restriction` / `face_restriction` -/
+def restriction (useFaces : Bool) (gs : List G) (dim : Nat) (sel : List Nat) : Except Err Mat := do
+  let idx ← subIdx (projsOf useFaces gs dim) sel
+  pure (restrictMat (sumMap (sizeOf useFaces) gs * dim) idx)
+
+def cellProlongation := prolongation false
+def cellRestriction := restriction false
+def faceProlongation := prolongation true
+def faceRestriction := restriction true
 
 /-! ### action on vectors (the meaning of the 0-1 matrices) -/
 
@@ -219,6 +224,17 @@ def mixedCodim : List Intf → Bool
   | [] => false
   | i :: is => is.any (fun j => j.codim != i.codim)
 
+/-- one block of `_construct_projection`: `projections[sd] @ M(dim)` / `M(dim) @ projections[sd].T` if the
+    subdomain on the requested side is in the list (`side = some position`), else a zero block -/
+def mortarBlock (dim : Nat) (projs : List (List Nat)) (total nms : Nat) (toMortar : Bool)
+    (side : Option Nat) (i : Intf) : Mat :=
+  match side with
+  | some p =>
+    if toMortar then ⟨i.cells * dim, total, mapCols (projs.getD p []) (kronI i.mat dim)⟩
+    else ⟨total, i.cells * dim, mapRows (projs.getD p []) (kronI i.mat dim)⟩
+  | none =>
+    if toMortar then ⟨i.cells * dim, nms, []⟩ else ⟨nms, i.cells * dim, []⟩
+
 /-- `MortarProjections._construct_projection(proj_func, to_mortar, is_primary)`; the local matrices
     `getattr(intf, proj_func)` are the `mat` fields.
 
@@ -230,25 +246,21 @@ def constructProjection (gs : List G) (dim : Nat) (intfs : List Intf) (toMortar 
     Except Err Mat :=
   match intfs with
   | [] =>
-    let nms := dim * (if isPrimary then sumMap G.faces gs else sumMap G.cells gs)
+    let nms := dim * sumMap (sizeOf isPrimary) gs
     if toMortar then .ok ⟨0, nms, []⟩ else .ok ⟨nms, 0, []⟩
   | i0 :: _ =>
     if mixedCodim intfs then .error .valueError
     else if i0.codim ≠ 1 ∧ i0.codim ≠ 2 then .error .valueError
-    else do
-      let useFaces := i0.codim = 1 ∧ isPrimary
-      let nms := dim * (if useFaces then sumMap G.faces gs else sumMap G.cells gs)
-      let projs ← liftO .indexError (if useFaces then faceProjs gs dim else cellProjs gs dim)
-      let total := (if useFaces then sumMap G.faces gs else sumMap G.cells gs) * dim
-      let block := fun (i : Intf) =>
-        match (if isPrimary then i.prim else i.sec) with
-        | some p =>
-          let pr := projs.getD p []
-          if toMortar then (⟨i.cells * dim, total, mapCols pr (kronI i.mat dim)⟩ : Mat)
-          else ⟨total, i.cells * dim, mapRows pr (kronI i.mat dim)⟩
-        | none =>
-          if toMortar then ⟨i.cells * dim, nms, []⟩ else ⟨nms, i.cells * dim, []⟩
-      if toMortar then vstack (intfs.map block) else hstack (intfs.map block)
+    else
+      let useFaces := decide (i0.codim = 1) && isPrimary
+      match projsOf useFaces gs dim with
+      | none => .error .indexError
+      | some projs =>
+        let total := sumMap (sizeOf useFaces) gs * dim
+        let nms := dim * sumMap (sizeOf useFaces) gs
+        let blks := intfs.map (fun i =>
+          mortarBlock dim projs total nms toMortar (if isPrimary then i.prim else i.sec) i)
+        if toMortar then vstack blks else hstack blks
 
 /-- diagonal of `MortarProjections.sign_of_mortar_sides` -/
 def signOf (dim : Nat) (i : Intf) : List Rat :=
